@@ -25,6 +25,9 @@ def _nested(tier):
     F, T = ("plit", False), ("plit", True)
     preds = [("or", G, F), ("or", G, ("not", T)), ("and", ("or", G, F), K), ("not", ("or", G, F)), ("or", F, G), ("and", K, ("or", F, F)),
              ("not", ("and", K, T)), ("or", ("and", K, F), G), ("and", ("not", F), K), ("or", K, ("and", T, F))]
+    L = lambda v: ("lit", v)  # noqa: E731
+    preds += [("gt", L(1), L(2)), ("lt", L("$k1"), L(0)), ("inrange", L(2), 5, 9, 1), ("not", ("le", L(1), L(2))),
+              ("and", ("gt", L(1), L(2)), K), ("eq", L(3), L(3))]
     for pr in preds:
         progs += [("sel", X, pr), ("slice", ("sel", X, pr), 0, 1), ("chain", ("sel", X, pr), D0), ("join", X, Z, pr)]
     n = 2 if tier == "quick" else 3
